@@ -362,7 +362,7 @@ def _size_obligation(oid, rel, call, fnode, cls, pf, p_e, z_e, p_given, z_given)
         return ground_obligation(oid, True, f"{loc} size_bytes is len() of the payload expression", rel, backend="z3")
     why = f"{loc} {cls}({pf}={ast.unparse(p_e) if p_e is not None else 'default'}, {SIZE_FIELD}={ast.unparse(z_e) if z_e is not None else 'default'}): " \
           f"the reported size is not len() of the stored payload"
-    definite = r == z3.sat and T.exact
+    definite = r == z3.sat and T.exact and len(T.atoms) <= 1
     o = ground_obligation(oid, False, why, rel, definite=definite, backend="z3")
     o["replay_hint"] = {"kind": "image-size", "class": cls}
     return o
@@ -382,11 +382,23 @@ def _dominating_increment(ix, fnode, site_stmt, name):
                     if isinstance(s, ast.AugAssign) and isinstance(s.target, ast.Name) and s.target.id == name and isinstance(s.op, ast.Add) \
                             and isinstance(s.value, ast.Constant) and isinstance(s.value.value, int) and s.value.value >= 1:
                         return True
+                    if isinstance(s, ast.Assign) and len(s.targets) == 1 and isinstance(s.targets[0], ast.Name) and s.targets[0].id == name \
+                            and (_is_self_increment(s.value, name) or 0) >= 1:
+                        return True
         if isinstance(parent, ast.ExceptHandler):
             # handler of a try: statements of the try body need not have run
             pass
         cur = parent if isinstance(parent, ast.stmt) or isinstance(parent, ast.ExceptHandler) else ix.stmt_of(parent)
     return False
+
+
+def _is_self_increment(value, name):
+    """k for `name + k` / `k + name` with a constant k >= 0, else None."""
+    if isinstance(value, ast.BinOp) and isinstance(value.op, ast.Add):
+        for a, b in ((value.left, value.right), (value.right, value.left)):
+            if isinstance(a, ast.Name) and a.id == name and isinstance(b, ast.Constant) and isinstance(b.value, int) and b.value >= 0:
+                return b.value
+    return None
 
 
 def _counter_discipline(fnode, name):
@@ -399,6 +411,8 @@ def _counter_discipline(fnode, name):
         elif d[0] == "aug" and isinstance(d[1], ast.Add) and isinstance(d[2], ast.Constant) and isinstance(d[2].value, int) and d[2].value >= 0:
             continue
         elif d[0] == "aug" and isinstance(d[1], ast.Add) and isinstance(d[2], ast.Call) and dotted(d[2].func) == "len":
+            continue
+        elif d[0] == "assign" and _is_self_increment(d[1], name) is not None:
             continue
         elif d[0] == "param":
             lo = 0 if lo is None else min(lo, 0)          # obligation on the callers: checked by _param_nonneg
@@ -414,9 +428,14 @@ def _number_obligation(oid, rel, mod, ix, call, fnode, cls, nf, e, default, give
     hint = {"kind": "image-number", "class": cls}
 
     def res(ok, why, definite=True):
-        o = ground_obligation(oid, ok, f"{loc} {why}", rel, definite=definite)
+        # the number at the constructor can be overwritten before the object is published (renumbering passes): a failed
+        # site obligation is a question for the native replayer, never a refutation by itself
+        o = ground_obligation(oid, ok, f"{loc} {why}", rel, definite=False)
         o["replay_hint"] = hint
         return o
+    if isinstance(e, ast.BinOp) and isinstance(e.op, ast.Add) and any(isinstance(x, ast.Constant) and isinstance(x.value, int) and x.value >= 1 for x in (e.left, e.right)) \
+            and any(isinstance(x, ast.Call) and dotted(x.func) == "len" for x in (e.left, e.right)):
+        return res(True, f"{nf}=len(...) + k with k >= 1")
     if not given:
         d = default.value if isinstance(default, ast.Constant) else None
         if isinstance(d, int) and d >= 1:
@@ -1288,28 +1307,38 @@ def _norm_codec(s):
     return s.lower().replace("-", "_")
 
 
-def _codec_values(A_fnode, e, depth=0):
-    """Set of constant codec names an expression can take, or None when it depends on the input."""
+def _codec_values(A_fnode, e, depth=0, ix=None):
+    """Set of constant strings (codec names / error handlers) an expression can take, or None when it depends on the input.
+    Follows local bindings, loops over literal sequences, hoisted module constants and -- for a parameter -- the arguments at
+    every call site of the function in the module."""
     if e is None:
         return {"utf-8"}
     if isinstance(e, ast.Constant) and isinstance(e.value, str):
         return {e.value}
     if isinstance(e, ast.IfExp):
-        a, b = _codec_values(A_fnode, e.body, depth), _codec_values(A_fnode, e.orelse, depth)
+        a, b = _codec_values(A_fnode, e.body, depth, ix), _codec_values(A_fnode, e.orelse, depth, ix)
         return None if a is None or b is None else a | b
     if isinstance(e, ast.BoolOp) and isinstance(e.op, ast.Or):
-        vals = [_codec_values(A_fnode, v, depth) for v in e.values]
+        vals = [_codec_values(A_fnode, v, depth, ix) for v in e.values]
         return None if any(v is None for v in vals) else set().union(*vals)
-    if isinstance(e, ast.Name) and depth < 3 and isinstance(A_fnode, (ast.FunctionDef, ast.AsyncFunctionDef)):
-        defs = single_defs(A_fnode, e.id)
+    if isinstance(e, ast.Name) and depth < 4:
+        defs = single_defs(A_fnode, e.id) if isinstance(A_fnode, (ast.FunctionDef, ast.AsyncFunctionDef)) else []
         if not defs:
+            if ix is not None and e.id in ix.mod.assigns:
+                n_bind = sum(1 for n in ast.walk(ix.mod.tree) if isinstance(n, ast.Name) and n.id == e.id and isinstance(n.ctx, ast.Store))
+                return _codec_values(None, ix.mod.assigns[e.id], depth + 1, ix) if n_bind == 1 else None
             return None
         out = set()
         for d in defs:
             if d[0] == "assign":
-                v = _codec_values(A_fnode, d[1], depth + 1)
-            elif d[0] == "for" and d[2] is None and isinstance(d[1], (ast.Tuple, ast.List)) and all(isinstance(x, ast.Constant) and isinstance(x.value, str) for x in d[1].elts):
-                v = {x.value for x in d[1].elts}
+                v = _codec_values(A_fnode, d[1], depth + 1, ix)
+            elif d[0] == "for" and d[2] is None:
+                seq = d[1]
+                if isinstance(seq, ast.Name) and ix is not None:
+                    seq = _const_container(ix, A_fnode, seq)
+                v = {x.value for x in seq.elts} if isinstance(seq, (ast.Tuple, ast.List)) and all(isinstance(x, ast.Constant) and isinstance(x.value, str) for x in seq.elts) else None
+            elif d[0] == "param" and ix is not None:
+                v = _param_strings(ix, A_fnode, e.id, depth)
             else:
                 v = None
             if v is None:
@@ -1317,6 +1346,30 @@ def _codec_values(A_fnode, e, depth=0):
             out |= v
         return out
     return None
+
+
+def _param_strings(ix, fnode, pname, depth):
+    """Constant strings passed for parameter `pname` at every call site of fnode in the module (default included)."""
+    sites = [c for c in _call_sites_of(ix.mod, fnode.name)]
+    if not sites:
+        return None
+    out = set()
+    a = fnode.args
+    names = [x.arg for x in a.posonlyargs + a.args]
+    dflt = dict(zip(names[len(names) - len(a.defaults):], a.defaults))
+    dflt.update({k.arg: v for k, v in zip(a.kwonlyargs, a.kw_defaults) if v is not None})
+    for c in sites:
+        arg = _arg_for(c, fnode, pname)
+        if arg is None:
+            arg = dflt.get(pname)
+            if arg is None:
+                return None
+        q, caller = ix.enclosing(c)
+        v = _codec_values(caller, arg, depth + 1, ix)
+        if v is None:
+            return None
+        out |= v
+    return out
 
 
 def decode_sites(repo, tier):
@@ -1350,6 +1403,9 @@ def decode_sites(repo, tier):
                     ev = "strict"
                 elif isinstance(err, ast.Constant) and isinstance(err.value, str):
                     ev = err.value
+                elif _codec_values(fnode, err, 0, ix) is not None and len(_codec_values(fnode, err, 0, ix)) >= 1:
+                    evs = _codec_values(fnode, err, 0, ix)
+                    ev = next((x for x in sorted(evs) if x in UNSAFE_ERRORS), None) or next((x for x in sorted(evs) if x not in SAFE_ERRORS), None) or sorted(evs)[0]
                 else:
                     ev = None
                 if ev in UNSAFE_ERRORS:
@@ -1362,7 +1418,7 @@ def decode_sites(repo, tier):
                     o["replay_hint"] = hint
                     obls.append(o)
                     continue
-                codecs_ = _codec_values(fnode, enc)
+                codecs_ = _codec_values(fnode, enc, 0, ix)
                 if codecs_ is None:
                     o = ground_obligation(oid, False, f"{loc} {src}: the codec name comes from the input; codecs such as unicode_escape / raw_unicode_escape / "
                                                        f"utf-7 decode to lone surrogates even with errors={ev!r}", rel, definite=False)
@@ -1422,14 +1478,22 @@ def decode_sites(repo, tier):
 
 
 def literal_sites(repo, tier):
-    """No string literal of the package contains a surrogate code point."""
+    """No string literal of the package that can reach a result contains a surrogate code point.  Literals used as a regex
+    pattern, as a key of a translate table or in a membership / comparison test (typically code that REMOVES surrogates) are
+    not sources of text."""
     bad = []
     n = 0
     for rel, mod in modules(repo).items():
+        ix = Index(mod)
         for node in ast.walk(mod.tree):
             if isinstance(node, ast.Constant) and isinstance(node.value, str):
                 n += 1
                 if any(SUR_LO <= ord(ch) <= SUR_HI for ch in node.value):
+                    p = ix.parent.get(id(node))
+                    if isinstance(p, ast.Call) and dotted(p.func) in ("re.compile", "re.sub", "re.search", "re.match", "re.findall", "re.split") and p.args and p.args[0] is node:
+                        continue
+                    if isinstance(p, ast.Compare) or (isinstance(p, ast.Dict) and node in p.keys):
+                        continue
                     bad.append(f"{rel}:{node.lineno}")
     return {"obligations": [ground_obligation("C04/package/wf#string-literals-have-no-surrogates", not bad,
-                                              "; ".join(bad[:5]) or f"{n} string literals scanned", "package")], "functions": []}
+                                              "; ".join(bad[:5]) or f"{n} string literals scanned", "package", definite=False)], "functions": []}
